@@ -1056,6 +1056,16 @@ func (e *eng) Op(f []string, line string, out *hx.Out) {
 		} else {
 			emit("M:C08", "0")
 		}
+	case "probe":
+		// directed scenarios with implementation-only oracles (probe.go); first op of a case of their own
+		bad := ""
+		switch f[1] {
+		case "sidewriter":
+			for _, b := range e.probeSideWriter() {
+				bad += " !BAD:C07:" + b
+			}
+		}
+		emit("P:C07,C02,C01", "probe ok%s", bad)
 	case "regdup":
 		// registering a table under a name that is taken is rejected with the documented error and must leave
 		// the database usable (no lock may stay held)
@@ -1076,6 +1086,17 @@ func (e *eng) Op(f []string, line string, out *hx.Out) {
 				bad = " !BAD:C05:unregistered-table-write-locked"
 				w.Abort()
 			}()
+			// ... nor may a request that names it together with registered tables leave THEIR locks held when it is
+			// rejected (the caller gets no handle to abort): the following transactions of the case would hang
+			// (S4-C10-2: the registration check moved behind the lock acquisition)
+			if e.wtxn == nil {
+				func() {
+					defer func() { recover() }()
+					w := e.db.WriteTxn(e.tabs[1], dup, e.tabs[0])
+					bad = " !BAD:C05:unregistered-table-write-locked"
+					w.Abort()
+				}()
+			}
 		}
 		emit("P:C10,C05", "err=%s%s", res, bad)
 	case "reginit":
